@@ -212,3 +212,5 @@ def run(eng, rep):
             else:
                 rep.bad("C14-3.generators-get-the-box-around-the-centre", eng.where(ci.caller, ci.node), "%s|generator-bounds" % ci.caller.fid, "generator is not given (sl - xopt, su - xopt)")
     rep.require_count("C14-3.generators-get-the-box-around-the-centre", "generator call sites", n, 5)
+    from .mirrorrule import rule_mirror
+    rule_mirror(eng, rep, 'C14-5.lower-and-upper-bound-handling-are-reflections', ['util.get_scale', 'util.random_directions_within_bounds', 'util.random_orthog_directions_within_bounds', 'controller.Controller.initialise_coordinate_directions'])
